@@ -79,11 +79,14 @@ def _site_of(e: BaseException) -> str:
     return site
 
 
-DEEP = 200  # nesting depth beyond which a RecursionError is attributed to the depth of the input (known finding C01-F1)
+# nesting depths beyond which a RecursionError is attributed to the depth of the input (known finding C01-F1): depth of the Python AST or
+# length of an inheritance chain; nesting of parentheses inside a string literal (a pattern: the regex visitors need ~11 frames per group)
+DEEP = 200
+DEEP_PATTERN = 50
 
 
-def max_nesting(text: str) -> int:
-    """Largest of: depth of the Python AST, length of an inheritance chain, nesting of parentheses inside a string literal.
+def max_nesting(text: str) -> Tuple[int, int]:
+    """(largest of: depth of the Python AST, length of an inheritance chain; deepest nesting of parentheses inside a string literal).
 
     Computed without recursion.  A RecursionError of the front end on an input that is NOT deeply nested in this sense would be a
     different defect (a genuinely unbounded recursion), so it keeps its site specific sig."""
@@ -92,10 +95,11 @@ def max_nesting(text: str) -> int:
     try:
         tree = _ast.parse(text)
     except RecursionError:
-        return 10 ** 6
+        return 10 ** 6, 0
     except (SyntaxError, ValueError):
-        return 0
+        return 0, 0
     deepest = 0
+    in_string = 0
     stack = [(tree, 1)]
     while stack:
         node, d = stack.pop()
@@ -105,7 +109,7 @@ def max_nesting(text: str) -> int:
             for ch in node.value:
                 if ch in "([{":
                     cur += 1
-                    deepest = max(deepest, cur)
+                    in_string = max(in_string, cur)
                 elif ch in ")]}":
                     cur = max(0, cur - 1)
         for child in _ast.iter_child_nodes(node):
@@ -121,7 +125,15 @@ def max_nesting(text: str) -> int:
                 changed = True
         if not changed:
             break
-    return max([deepest] + list(chain.values()))
+    return max([deepest] + list(chain.values())), in_string
+
+
+def is_deeply_nested(path: pathlib.Path) -> bool:
+    try:
+        a, b = max_nesting(path.read_text(encoding="utf-8", errors="surrogateescape"))
+    except Exception:  # noqa
+        return False
+    return a > DEEP or b > DEEP_PATTERN
 
 
 def load(path: pathlib.Path) -> Dict[str, Any]:
@@ -130,11 +142,7 @@ def load(path: pathlib.Path) -> Dict[str, Any]:
     try:
         res = run.load_model(path)
     except RecursionError as e:
-        try:
-            deep = max_nesting(path.read_text(encoding="utf-8", errors="surrogateescape")) > DEEP
-        except Exception:  # noqa
-            deep = False
-        return {"kind": "crash", "exc": "RecursionError", "site": ("input-nested-deeper-than-200" if deep else _site_of(e)), "msg": str(e)[:200]}
+        return {"kind": "crash", "exc": "RecursionError", "site": ("deeply-nested-input" if is_deeply_nested(path) else _site_of(e)), "msg": str(e)[:200]}
     except BaseException as e:  # noqa
         return {"kind": "crash", "exc": type(e).__name__, "site": _site_of(e), "msg": str(e)[:200]}
     if res[1] is None and res[0] is not None:
@@ -157,11 +165,7 @@ def cli(path: pathlib.Path, scratch: pathlib.Path) -> Dict[str, Any]:
         rc = m.execute(m.Parameters(path, m.Target.JSONSCHEMA, snippets, scratch / "out"), out, err)
         return {"kind": "done", "rc": rc, "stderr": err.getvalue()}
     except RecursionError as e:
-        try:
-            deep = max_nesting(path.read_text(encoding="utf-8", errors="surrogateescape")) > DEEP
-        except Exception:  # noqa
-            deep = False
-        return {"kind": "crash", "exc": "RecursionError", "site": ("input-nested-deeper-than-200" if deep else _site_of(e)), "msg": str(e)[:200]}
+        return {"kind": "crash", "exc": "RecursionError", "site": ("deeply-nested-input" if is_deeply_nested(path) else _site_of(e)), "msg": str(e)[:200]}
     except BaseException as e:  # noqa
         return {"kind": "crash", "exc": type(e).__name__, "site": _site_of(e), "msg": str(e)[:200]}
     finally:
